@@ -297,7 +297,7 @@ def mat_norm(m):
 IDENTITY = (1.0, 0.0, 0.0, 1.0, 0.0, 0.0)
 ANGLES_DEG = [0.0, 90.0, 180.0, 270.0, -90.0, 45.0, 30.0, -30.0, 60.0, 120.0, 135.0, 20.0, 1.0, 359.0, 33.3]
 SCALES = [1.0, 2.0, 0.5, 3.0, 10.0, 0.1]
-MATRIX_CLASSES = ["identity", "translate", "similarity", "reflection", "antidiagonal", "aniso", "aniso-rot", "shear", "general", "general-neg"]
+MATRIX_CLASSES = ["identity", "translate", "similarity", "reflection", "antidiagonal", "aniso", "aniso-rot", "shear", "general", "general-neg", "small-exact"]
 
 
 def angle_deg(d):
@@ -338,6 +338,25 @@ def matrix(d, classes=None, translate=True):
         k = d.choice([2.0, 0.5, 3.0]) if d.bool() else r6(d.uniform(1.05, 400.0))
         s2 = min(max(s1 / k, 1e-2), 1e2)
         m = mat_mul(mat_mul(_rot(math.radians(angle_deg(d))), (s1, 0, 0, s2, 0, 0)), _rot(math.radians(angle_deg(d))))
+    elif cls == "small-exact":
+        # entries that are small integers or dyadic fractions, in patterns with exact coincidences between them: symmetric
+        # (a b b a), mirrored symmetric (a b -b -a), equal diagonal with unequal off-diagonal, arbitrary small entries
+        vals = [1.0, 2.0, 0.5, 3.0, -1.0, -2.0, 0.25, 1.5, -0.5]
+        a, b = d.choice(vals), d.choice(vals)
+        pat = d.below(5)
+        if pat == 0:
+            m = (a, b, b, a)
+        elif pat == 1:
+            m = (a, b, -b, -a)
+        elif pat == 2:
+            m = (a, b, d.choice(vals), a)
+        elif pat == 3:
+            m = (a, b, -b, a * 2.0)
+        else:
+            m = (a, b, d.choice(vals), d.choice(vals))
+        if abs(m[0] * m[3] - m[1] * m[2]) < 0.05:  # singular or nearly so: break the coincidence that makes it so
+            m = (m[0] + 2.0, m[1], m[2], m[3] + 3.0) if abs((m[0] + 2.0) * (m[3] + 3.0) - m[1] * m[2]) >= 0.05 else (2.0, 1.0, 1.0, 2.0)
+        m = m + (0.0, 0.0)
     elif cls == "shear":
         k = d.choice([1.0, 0.5, -1.0, 2.0]) if d.bool() else r6(d.uniform(-10.0, 10.0))
         m = (1.0, 0.0, k, 1.0, 0.0, 0.0) if d.bool() else (1.0, k, 0.0, 1.0, 0.0, 0.0)
